@@ -25,6 +25,7 @@ import (
 
 	metav1 "k8s.io/apimachinery/pkg/apis/meta/v1"
 	"k8s.io/apimachinery/pkg/labels"
+	"k8s.io/apimachinery/pkg/util/validation"
 
 	proxyv1alpha1 "github.com/kubewharf/kubegateway/pkg/apis/proxy/v1alpha1"
 	"github.com/kubewharf/kubegateway/pkg/ratelimiter/util"
@@ -41,7 +42,7 @@ func TestCheck(t *testing.T) {
 			"Oracle: dead = silent through a timeout pass and a later unknown-condition pass => no condition, no flow-control count, totals exact, a survivor can take the freed count, " +
 			"recorded allocated sum = sum of survivors; live (fresh heartbeat at every pass) => conditions and counts untouched by every pass. " +
 			"Non-trivial = at least one instance with recorded state was reclaimed while another live one held state; distinct = hash of the history trace.")
-		r.Assume("leadership does not change during a history (limitStoreMap is iterated without its lock by the cleanup goroutine)")
+		r.Assume("leadership does not change during a generated history; cleanup passes racing with leadership changes, upstream registrations and reports are driven by the separate churn scenarios (mapstress_test.go)")
 		n := r.N(2000, 40000)
 		r.Parallel(n, 16, func(i int, g *vkit.Rand) {
 			h := newHistory(r, g, i)
@@ -77,6 +78,7 @@ func TestCheck(t *testing.T) {
 			r.Require(r.Counter("realtime_silences_slept") >= 50, "the real-time variant did not sleep through real silences")
 		}
 		returnDuringCleanup(r)
+		cleanupUnderLeadershipChurn(r)
 		r.Require(r.Counter("return_overlaps_achieved") >= int64(r.N(50, 500)) && r.Counter("return_overlaps_confirmed_by_goroutine_dump") >= 10, "too few returns actually overlapped the clean-up goroutine")
 		r.Require(r.Counter("histories_leading_some_shards_only") >= 100 && r.Counter("reclaimed_conditions_whose_name_hashes_to_a_shard_not_led") >= 50,
 			"too few dead instances reclaimed on a server that leads only some shards, with condition names hashing to the other shards")
@@ -321,7 +323,8 @@ func (h *history) labelled(id string) bool {
 		if st == nil {
 			continue
 		}
-		if len(st.List(labels.Set{"proxy.kubegateway.io/ratelimitcondition.instance": id}.AsSelector())) > 0 {
+		// exact match on the label (Set.AsSelector would turn an identity that is not a valid label value into "everything")
+		if len(st.List(labels.SelectorFromValidatedSet(labels.Set{"proxy.kubegateway.io/ratelimitcondition.instance": id}))) > 0 {
 			return true
 		}
 	}
@@ -578,7 +581,16 @@ func (h *history) passTimeout() {
 		w.expired = true
 	}
 	h.logf("timeout pass (expired now: %d)", len(expiring))
-	h.checkLive("timeout", before, h.snap())
+	pass := "timeout"
+	for _, w := range expiring {
+		if len(validation.IsValidLabelValue(w.id)) > 0 {
+			// the identity of an instance found dead by this pass cannot be a label value (':' of ip:port, '[' of IPv6, ...)
+			pass = "timeout/dead-identity-not-a-label-value"
+			h.r.Count("timeout_passes_expiring_an_identity_that_is_not_a_label_value", 1)
+			break
+		}
+	}
+	h.checkLive(pass, before, h.snap())
 }
 
 // passUnknown runs cleanupUnknownCondition (synchronous) and judges the instances that are dead by now.
